@@ -23,17 +23,22 @@ type caseSpec struct {
 	LegacyFields     bool // also fill output_files/output_directories (must be ignored)
 
 	// Oracle side.
-	WDValid     bool
-	WDStack     []string
-	Invalid     []string   // declared strings that must be rejected (wd or outputs)
-	Locations   [][]string // per output path: normalised location (nil if invalid)
-	InputRoot   *outkit.Node
-	PreRun      *outkit.Node // input root + parent directories of outputs
-	Final       *outkit.Node // hierarchy after the action ran
-	Shape       string
-	Situations  map[string]bool
-	wantsTrees  bool
-	specialSeen bool
+	WDValid   bool
+	WDStack   []string
+	Invalid   []string   // declared strings that must be rejected (wd or outputs)
+	Locations [][]string // per output path: normalised location (nil if invalid)
+	InputRoot *outkit.Node
+	PreRun    *outkit.Node // input root + parent directories of outputs
+	Final     *outkit.Node // hierarchy after the action ran
+	Shape     string
+	// Removals are locations (parent directories the worker created) that
+	// the action deletes before producing Final; ParentReplaced says what
+	// it put there instead ("file" or "removed").
+	Removals       [][]string
+	ParentReplaced string
+	Situations     map[string]bool
+	wantsTrees     bool
+	specialSeen    bool
 }
 
 var pathNames = []string{"a", "b", "c", "out", "x"}
@@ -312,6 +317,38 @@ func genCase(rng *rand.Rand, idx int, allowSpecial bool) *caseSpec {
 		}
 		parent.Children[name] = n
 	}
+	// A hostile but legal action: it deletes a parent directory the worker
+	// created for it (and everything it would have produced below), or
+	// puts a regular file in its place. Outputs declared below do not
+	// exist afterwards.
+	if rng.IntN(7) == 0 {
+		var candidates [][]string
+		for _, loc := range cs.Locations {
+			for l := 1; l < len(loc); l++ {
+				parent := loc[:l]
+				if cs.InputRoot.Lookup(parent) == nil && !isPrefix(parent, cs.WDStack) && strings.Join(parent, "/") != strings.Join(cs.WDStack, "/") {
+					candidates = append(candidates, parent)
+				}
+			}
+		}
+		if len(candidates) > 0 {
+			victim := candidates[rng.IntN(len(candidates))]
+			holder := cs.Final.Lookup(victim[:len(victim)-1])
+			if holder != nil && holder.Kind == outkit.KindDir {
+				cs.Removals = append(cs.Removals, victim)
+				if rng.IntN(2) == 0 {
+					holder.Children[victim[len(victim)-1]] = &outkit.Node{Kind: outkit.KindFile, Data: contents[4]}
+					cs.ParentReplaced = "file"
+					cs.Situations["parent-directory-replaced-by-file"] = true
+				} else {
+					delete(holder.Children, victim[len(victim)-1])
+					cs.ParentReplaced = "removed"
+					cs.Situations["parent-directory-removed-by-action"] = true
+				}
+				shapes = append(shapes, "parent-"+cs.ParentReplaced)
+			}
+		}
+	}
 	// Undeclared junk next to the outputs: must not be reported unless it
 	// lives inside a reported directory.
 	if rng.IntN(3) == 0 {
@@ -378,6 +415,7 @@ func (cs *caseSpec) describe() map[string]any {
 		"oracle_invalid": cs.Invalid, "oracle_locations": fmt.Sprint(cs.Locations),
 		"input_root": cs.InputRoot.Describe(), "expected_before_run": cs.PreRun.Describe(),
 		"produced_hierarchy": truncate(cs.Final.Describe(), 4000), "shape": cs.Shape,
+		"removed_by_action": fmt.Sprint(cs.Removals), "parent_replaced": cs.ParentReplaced,
 	}
 }
 
